@@ -336,6 +336,17 @@ def worlds(tier):
                                                 continue
                                             world, tr = make_world(nchrom, fam, 3, recomb, change, seed, change_mode=mode)
                                             yield {"world": world, "trios": [list(t) for t in tr], "opts": dict(opts, tag=tag2), "lists": lists, "families": families, "fam": fam}
+                                if not change and not recomb and nchrom <= 2:
+                                    # the first variant of every chromosome on the first base (phase set id 1, component id
+                                    # 0 inside the program); further reads that start at the second variant
+                                    world, tr = make_world(nchrom, fam, 3, recomb, change, seed)
+                                    for c in world["chroms"]:
+                                        c["variants"][0]["pos"] = 0
+                                    for s_ in world["samples"]:
+                                        for c in world["chroms"]:
+                                            for h_ in (0, 1):
+                                                world["reads"].append({"sample": s_, "chrom": c["name"], "hap": h_, "segs": [[1, 2, 6, 6]], "n": 1})
+                                    yield {"world": world, "trios": [list(t) for t in tr], "opts": opts, "lists": lists, "families": families, "fam": fam, "first_base": True}
                                 if fam in ("two-unrelated", "two-trios", "trio+single") and not change and not recomb:
                                     world, tr = make_world(nchrom, fam, 3, recomb, change, seed, stagger=True)
                                     yield {"world": world, "trios": [list(t) for t in tr], "opts": opts, "lists": lists, "families": families, "fam": fam, "stagger": True}
